@@ -18,7 +18,7 @@ PASS_THROUGH = (
 
 class Gate:
     """one condition an accept site is control dependent on."""
-    __slots__ = ('kind', 'what', 'operands', 'fn', 'block', 'line', 'callee', 'args', 'edge', 'const_ops', 'truth', 'negated', 'dom', 'param', 'quant', 'chain', 'targs', 'tcall')
+    __slots__ = ('kind', 'what', 'operands', 'fn', 'block', 'line', 'callee', 'args', 'edge', 'const_ops', 'truth', 'negated', 'dom', 'param', 'quant', 'chain', 'targs', 'tcall', 'oargs')
 
     def __init__(self, kind, what, operands, fn, block, line, callee=None, args=None, edge=None, const_ops=None):
         self.kind = kind          # 'cmp' | 'call' | 'deleg' | 'match' | 'opaque'
@@ -29,6 +29,7 @@ class Gate:
         self.line = line
         self.callee = callee
         self.args = args
+        self.oargs = args     # the operands of the call in the function `fn` (kept when the gate is restated in a caller's terms)
         self.edge = edge
         self.const_ops = const_ops or []
         self.dom = False      # the edge the accept site depends on dominates it (every path to the accept passes this check); 'loop' = the check
@@ -329,6 +330,7 @@ def _payload_gate(eng, fd, call, bi, line, depth):
                             oo |= fd._inst_atom(a, call['args'])
                         ops.append(oo)
                     ng = Gate(g2.kind, g2.what, ops, g2.fn, g2.block, g2.line, g2.callee, g2.args if g2.kind == 'deleg' else None, None, g2.const_ops)
+                    ng.oargs = g2.oargs
                     if g2.kind != 'deleg':
                         subs.append(ng)
     if not subs:
@@ -393,7 +395,8 @@ def _classify_value(eng, fd, pl, bi, line, depth, payload=False, _def=None):
                 elif kind2 == 'assign' and x2['rv']['k'] == 'use' and x2['rv']['op']['k'] in ('copy', 'move') and depth < 10:
                     subs.append(_classify_value(eng, fd, x2['rv']['op']['pl'], bi, line, depth + 1))
                 elif kind2 == 'assign' and x2['rv']['k'] == 'binop' and x2['rv']['op'] in CMP_BINOPS:
-                    subs.append(Gate('cmp', x2['rv']['op'], [fd.read_op(x2['rv']['a']), fd.read_op(x2['rv']['b'])], body.path, bi, x2.get('line', line)))
+                    subs.append(Gate('cmp', x2['rv']['op'], [fd.read_op(x2['rv']['a']), fd.read_op(x2['rv']['b'])], body.path, bi, x2.get('line', line),
+                                     args=[x2['rv']['a'], x2['rv']['b']]))
             # implicit flow: the conditions under which each definition executes (`a() && b()` assigns b() only if a())
             if depth < 6:
                 seen_sw = set()
@@ -414,6 +417,8 @@ def _classify_value(eng, fd, pl, bi, line, depth, payload=False, _def=None):
                     g.chain = 'or'
                 elif consts == {'0'}:
                     g.chain = 'and'
+                elif consts == {'0', '1'}:
+                    g.chain = 'mixed'       # `a || b && c` held in one variable: the whole says nothing about a single part
                 return g
         return Gate('match', 'value', [fd.read_place(pl)], body.path, bi, line)
     kind, dbi, x = d
@@ -430,7 +435,7 @@ def _classify_value(eng, fd, pl, bi, line, depth, payload=False, _def=None):
                         return g
             consts = [o.get('int', o.get('disp')) for o in (rv['a'], rv['b']) if o['k'] == 'const']
             return Gate('cmp', rv['op'], [fd.read_op(rv['a']), fd.read_op(rv['b'])], body.path, bi, x.get('line', line),
-                        const_ops=consts)
+                        args=[rv['a'], rv['b']], const_ops=consts)
         if rv['k'] == 'unop' and rv['op'] == 'Not' and rv['a']['k'] in ('copy', 'move'):
             g = _classify_value(eng, fd, rv['a']['pl'], bi, line, depth + 1)
             g.negated = not g.negated
@@ -542,6 +547,7 @@ def _classify_value(eng, fd, pl, bi, line, depth, payload=False, _def=None):
                             ops2.append(oo)
                         ng = Gate(g2.kind if g2.kind not in ('deleg', 'match') else 'call', g2.what if g2.kind != 'match' else (g2.what or 'value'), ops2, g2.fn, bi, line,
                                   g2.callee, None, None, g2.const_ops)
+                        ng.oargs = g2.oargs
                         ng.quant = q
                         subs.append(ng)
                     g = Gate('multi', 'quantified:' + q.split('::')[-1], [whole.all_atoms()], body.path, bi, line)
@@ -590,6 +596,7 @@ def _classify_value(eng, fd, pl, bi, line, depth, payload=False, _def=None):
                                     oo.add(a)
                             ops2.append(oo)
                         ng = Gate(g2.kind if g2.kind != 'deleg' else 'call', g2.what, ops2, g2.fn, bi, line, g2.callee, None, None, g2.const_ops)
+                        ng.oargs = g2.oargs
                         ng.quant = callee
                         subs.append(ng)
                 g = Gate('multi', 'quantified:' + short, [whole.all_atoms()], body.path, bi, line)
@@ -632,6 +639,7 @@ def _classify_value(eng, fd, pl, bi, line, depth, payload=False, _def=None):
                                     oo.add(a)
                             ops2.append(oo)
                         ng = Gate(g2.kind if g2.kind != 'deleg' else 'call', g2.what, ops2, g2.fn, bi, line, g2.callee, None, None, g2.const_ops)
+                        ng.oargs = g2.oargs
                         ng.negated = g2.negated
                         subs.append(ng)
             g = Gate('multi', 'option-combinator:' + short, [set().union(*[q.all_atoms() for q in subs])], body.path, bi, line)
@@ -808,6 +816,8 @@ class GateAnalysis:
                 pt = None         # one part of `a || b` is true: which one is not known (and the later ones may not have been evaluated)
             elif g.chain == 'and' and pt is False:
                 pt = None
+            elif g.chain == 'mixed':
+                pt = None
             s.truth = pt if (not s.negated or pt is None) else (not pt)
             s.dom = g.dom
             out.extend(self._flatten(s))
@@ -853,6 +863,7 @@ class GateAnalysis:
                                         oo |= fd._inst_atom(a, args)
                                     ops3.append(oo)
                                 n3 = Gate(g3.kind, g3.what, ops3, g3.fn, g3.block, g3.line, g3.callee, None, g3.edge, g3.const_ops)
+                                n3.oargs = g3.oargs
                                 n3.truth, n3.dom, n3.quant = g3.truth, and_dom(g3.dom, and_dom(g.dom, dom)), g3.quant
                                 la.append(n3)
                             alts.append(la)
@@ -880,6 +891,7 @@ class GateAnalysis:
                                         oo |= fd._inst_atom(a, args)
                                     ops3.append(oo)
                                 n3 = Gate(g3.kind, g3.what, ops3, g3.fn, g3.block, g3.line, g3.callee, None, g3.edge, g3.const_ops)
+                                n3.oargs = g3.oargs
                                 n3.truth, n3.dom, n3.quant = g3.truth, and_dom(g3.dom, dom), g3.quant
                                 la.append(n3)
                             alts.append(la)
@@ -909,6 +921,7 @@ class GateAnalysis:
                         if lit:
                             for eo in lit:
                                 ng = Gate(g.kind, g.what, [set(eo)], g.fn, g.block, g.line, g.callee, None, g.edge, g.const_ops)
+                                ng.oargs = g.oargs
                                 ng.truth, ng.dom, ng.param, ng.quant = g.truth, and_dom(g.dom, dom), None, g.quant
                                 lifted.append(ng)
                             continue
@@ -919,6 +932,7 @@ class GateAnalysis:
                         oo |= fd._inst_atom(a, args)
                     ops.append(oo)
                 ng = Gate(g.kind, g.what, ops, g.fn, g.block, g.line, g.callee, None, g.edge, g.const_ops)
+                ng.oargs = g.oargs
                 ng.truth = g.truth
                 ng.dom = and_dom(g.dom, dom)
                 ng.param = None
